@@ -24,7 +24,8 @@ EXPLANATION = (
     "unit names as symbols (quantity calculus), and compared with a reference that is derived mechanically by "
     "differentiating the per-mode free energy of the property statement. Also decided: pressure term of the "
     "off-diagonal class, Bose factors, reduction axes and Gamma mask of the mode average, T=0 masking, "
-    "producer/consumer order of mode_gamma.")
+    "producer/consumer order of mode_gamma. The same bodies are also folded cell by cell on a 2 x 4 (q, m) grid with symbolic q-point "
+    "weights through the real reduction code (R01.13): the weight of every single cell, whatever code performs the reduction.")
 NOT_DECIDED = ("agreement with finite differences of F on concrete spectra; numpy's floating-point arithmetic; "
                "accuracy of the interpolated gamma.")
 ASSUMPTIONS = [
